@@ -5,9 +5,11 @@
 // input line : NX NY NZ sx sy sz px py pz bkind gamma nsteps cfl init seed mach hx hy hz dump
 //              (gamma, cfl, mach, hx, hy, hz as hex bit patterns; bkind 0 inflow / 1 outflow / 2 reflective; dump 0/1)
 // init       : 0 smooth waves, 1 discontinuous blocks, 2 near-vacuum region, 3 independent random cells
-// output     : T step dt tot[5] abs[5] minmass minenergy nonfinite negative wallmach       (hex doubles, counts decimal), step 0 = initial
+// output     : T step dt tot[5] abs[5] minmass minenergy nonfinite negative wallmach nclamp (hex doubles, counts decimal), step 0 = initial;
+//              nclamp = number of cells whose mass or energy the positivity clamp of update_conserved_variables reset in that step
 //              X digest                                                                   (FNV-1a over all cell states, global cell order)
-//              D id cons[5] prim[5]                                                       (if dump)
+//              D id cons[5] prim[5]                                                       (if dump: final state)
+//              I id cons[5] prim[5]  and  Geo dx[3] 1/dx[3] A[3] 1/V                       (if dump: initial state, geometry of subgrid 0)
 //              END
 #include <cinttypes>
 #include <cmath>
@@ -116,7 +118,22 @@ int main() {
 
     const int dirp[3] = {TRAVELDIRECTION_FACE_X_P, TRAVELDIRECTION_FACE_Y_P, TRAVELDIRECTION_FACE_Z_P};
     const int dirn[3] = {TRAVELDIRECTION_FACE_X_N, TRAVELDIRECTION_FACE_Y_N, TRAVELDIRECTION_FACE_Z_N};
+    if (dump) {
+      const HydroDensitySubGrid &g0 = *grids[0];
+      printf("Geo");
+      for (int a = 0; a < 3; ++a) printf(" %016" PRIx64, d2b(g0._cell_size[a]));
+      for (int a = 0; a < 3; ++a) printf(" %016" PRIx64, d2b(g0._inv_cell_size[a]));
+      for (int a = 0; a < 3; ++a) printf(" %016" PRIx64, d2b(g0._cell_areas[a]));
+      printf(" %016" PRIx64 "\n", d2b(g0._inverse_cell_volume));
+      for (size_t id = 0; id < ntot; ++id) {
+        const HydroVariables &hv = grids[where[id].first]->_hydro_variables[where[id].second];
+        printf("I %zu", id);
+        for (int k = 0; k < 10; ++k) printf(" %016" PRIx64, d2b(k < 5 ? hv.conserved(k) : hv.primitives(k - 5)));
+        printf("\n");
+      }
+    }
     double dt = 0.;
+    long nclamp = 0;
     for (int step = 0; step <= nsteps; ++step) {
       // report (global cell order)
       double tot[5] = {0., 0., 0., 0., 0.}, ab[5] = {0., 0., 0., 0., 0.};
@@ -146,7 +163,7 @@ int main() {
       printf("T %d %016" PRIx64, step, d2b(dt));
       for (int k = 0; k < 5; ++k) printf(" %016" PRIx64, d2b(tot[k]));
       for (int k = 0; k < 5; ++k) printf(" %016" PRIx64, d2b(ab[k]));
-      printf(" %016" PRIx64 " %016" PRIx64 " %ld %ld %016" PRIx64 "\n", d2b(minm), d2b(minE), nonfinite, negative, d2b(wallmach));
+      printf(" %016" PRIx64 " %016" PRIx64 " %ld %ld %016" PRIx64 " %ld\n", d2b(minm), d2b(minE), nonfinite, negative, d2b(wallmach), nclamp);
       if (step == nsteps) break;
 
       // time step: CFL * minimum over all cells (TaskBasedRadiationHydrodynamicsSimulation.cpp, "time step")
@@ -177,6 +194,12 @@ int main() {
           else g.outer_flux_sweep(dirp[a], hydro, *grids[ngb], dt);
           if (g.get_neighbour(dirn[a]) == NEIGHBOUR_OUTSIDE) g.outer_ghost_flux_sweep(dirn[a], hydro, boundary, dt);
         }
+      }
+      // would the positivity clamp fire? (no gravity, no energy term in this harness)
+      nclamp = 0;
+      for (size_t id = 0; id < ntot; ++id) {
+        const HydroVariables &hv = grids[where[id].first]->_hydro_variables[where[id].second];
+        if (hv.conserved(0) + hv.delta_conserved(0) * dt < 0. || hv.conserved(4) + hv.delta_conserved(4) * dt < 0.) ++nclamp;
       }
       for (size_t s = 0; s < N; ++s) grids[s]->update_conserved_variables(dt);
       for (size_t s = 0; s < N; ++s) grids[s]->update_primitive_variables(hydro);
